@@ -1,6 +1,6 @@
 """Shared constraint-flow lints (D1, D3, D4, D5) for the gadget properties C04–C07, C19 (and the gadget part of C20)."""
 import json, os
-from ..core import norm, short, walk, callee, callee_decl, peel, last_seg, mir_callee
+from ..core import norm, short, walk, callee, callee_decl, peel, last_seg, mir_callee, pat_bindings
 from ..engines import dlint, hirq, mustcall as mc, reach, valflow
 from .. import tables, facts
 
@@ -12,6 +12,7 @@ SCOPES = {
     'C07': ('circuits/src/hash/', 'zk_stdlib/src/external/'),
     'C19': ('circuits/src/parsing/', 'circuits/src/instructions/base64.rs'),
     'C20': ('circuits/src/verifier/', 'aggregator/src/'),
+    'C18': ('zkir/src/',),
 }
 CRATES = ['circuits', 'zk_stdlib', 'zkir', 'aggregator']
 CT = {'AssignedBit', 'AssignedByte', 'AssignedBounded', 'AssignedField', 'AssignedNativePoint', 'AssignedScalarOfNativeCurve', 'AssignedBigUint',
@@ -81,33 +82,64 @@ def mine_mustcalls(w):
 ITER_ADAPTORS = {'map', 'try_for_each', 'for_each', 'filter_map', 'flat_map', 'fold', 'try_fold', 'all', 'any', 'zip', 'scan'}
 
 
-def looped_checks(f):
-    """assert-like workspace callees invoked inside a loop / iterator closure of f (HIR)"""
-    from ..core import children
-    out = set()
+RESTRICTING = {'take', 'skip', 'filter', 'step_by', 'take_while', 'skip_while', 'filter_map', 'zip', 'chunks', 'chunks_exact', 'windows', 'nth', 'last', 'first',
+               'split_at', 'split_first', 'split_last', 'find', 'position'}
 
-    def rec(n, in_loop):
+
+def chain_restrictions(e):
+    """restricting adaptors / sub-slicing on the receiver chain of an iteration source"""
+    out = []
+    e = peel(e)
+    while True:
+        k = e.get('k')
+        if k == 'mcall':
+            if e.get('m') in RESTRICTING:
+                out.append(e['m'])
+            e = peel(e['recv'])
+        elif k == 'index':
+            if 'Range' in (e.get('ixt') or ''):
+                out.append('[range]')
+            e = peel(e['e'])
+        elif k in ('try', 'field', 'cast'):
+            e = peel(e['e'])
+        else:
+            return out
+
+
+def looped_checks(f, with_restrictions=False):
+    """assert-like workspace callees invoked inside a loop / iterator closure of f (HIR);
+    with_restrictions: {callee: sorted list of restricting adaptors on the iteration sources it sits under}"""
+    from ..core import children
+    out = {}
+
+    def rec(n, in_loop, restr):
         k = n.get('k')
         if k in ('call', 'mcall') and 'f' in n:
             c = callee(n) or ''
             if in_loop and assertish(c) and c.startswith(('midnight_', '<midnight_')):
-                out.add(c)
+                out.setdefault(c, []).extend(restr)
             if k == 'mcall' and n.get('m') in ITER_ADAPTORS:
-                rec(n['recv'], in_loop)
+                rec(n['recv'], in_loop, restr)
+                r2 = restr + chain_restrictions(n['recv']) + ([n['m']] if n['m'] in RESTRICTING else [])
                 for a in n.get('args', []):
-                    rec(a, True if peel(a).get('k') == 'closure' else in_loop)
+                    if peel(a).get('k') == 'closure':
+                        rec(a, True, r2)
+                    else:
+                        rec(a, in_loop, restr)
                 return
         if k == 'for':
-            rec(n['iter'], in_loop)
-            rec(n['body'], True)
+            rec(n['iter'], in_loop, restr)
+            rec(n['body'], True, restr + chain_restrictions(n['iter']))
             return
         if k == 'loop':
-            rec(n['body'], True)
+            rec(n['body'], True, restr)
             return
         for c2 in children(n):
-            rec(c2, in_loop)
-    rec(f['body'], False)
-    return out
+            rec(c2, in_loop, restr)
+    rec(f['body'], False, [])
+    if with_restrictions:
+        return {c: sorted(v) for c, v in out.items()}
+    return set(out)
 
 
 def mine_looped(w):
@@ -118,8 +150,8 @@ def mine_looped(w):
         prop = prop_of_file(f['file'])
         if prop is None:
             continue
-        for g in sorted(looped_checks(f)):
-            rows.append(dict(property=prop, fn=f['_xid'], looped_call=g))
+        for g, restr in sorted(looped_checks(f, with_restrictions=True).items()):
+            rows.append(dict(property=prop, fn=f['_xid'], looped_call=g, restrictions=restr))
     return rows
 
 
@@ -146,6 +178,57 @@ def mine_boundflow(w):
         for (p, c) in sorted(bound_flows(f)):
             rows.append(dict(property=prop, fn=f['_xid'], param=p, reaches=c))
     return rows
+
+
+def assigned_params(f):
+    out = []
+    for p in f.get('params', []):
+        for b in pat_bindings(p):
+            if b['n'] != 'self' and dlint.has_assigned(b.get('t')):
+                out.append((b['n'], b['i'], b.get('t')))
+    return out
+
+
+def arg_flows(f):
+    """{(assigned parameter, workspace circuit-building callee): number of call sites of the callee that receive a value derived from the parameter}"""
+    src = assigned_params(f)
+    if not src:
+        return {}
+    vf = valflow.ValFlow(f, sources=src)
+    out = {}
+    for n, c, deps in vf.call_sites(typed=dlint.has_assigned):
+        if not c.startswith(('midnight_', '<midnight_')) or not valflow.circuit_call(n):
+            continue
+        for p in deps:
+            out[(p, c)] = out.get((p, c), 0) + 1
+    return out
+
+
+def mine_argflow(w):
+    rows = []
+    for f in w.all_fns(CRATES):
+        if '::tests::' in f['_nid'] or '/tests' in f['file']:
+            continue
+        prop = prop_of_file(f['file'])
+        if prop is None:
+            continue
+        for (p, c), k in sorted(arg_flows(f).items()):
+            rows.append(dict(property=prop, fn=f['_xid'], param=p, reaches=c, sites=k))
+    return rows
+
+
+def eval_looped_row(ck, rule, f, r):
+    from collections import Counter
+    cur = looped_checks(f, with_restrictions=True)
+    ok = r['looped_call'] in cur
+    ck.record(rule, f'{r["fn"]}|{short(r["looped_call"])}', ok, f'{short(r["looped_call"])} applied per element',
+              f'{r["fn"]} no longer applies {r["looped_call"]} inside its iteration: the per-element check was dropped or hoisted out of the loop', hirq.fn_loc(f))
+    if ok:
+        ref, now = Counter(r.get('restrictions', [])), Counter(cur[r['looped_call']])
+        extra = sorted((now - ref).elements())
+        ck.record(rule, f'{r["fn"]}|{short(r["looped_call"])}:domain', not extra, f'iteration domain not narrowed (restricting adaptors {sorted(now.elements())})',
+                  f'{r["fn"]}: the iteration under which {r["looped_call"]} is applied gained the restricting adaptor(s) {extra} (reference: '
+                  f'{sorted(ref.elements())}): some elements that were checked are now skipped', hirq.fn_loc(f))
 
 
 def load_rules(name):
@@ -299,9 +382,7 @@ def run_d(ck, w, prop, floors):
         if f is None:
             ck.bad(f'{P}.D5b', f'{r["fn"]}|{short(r["looped_call"])}:anchor', f'function {r["fn"]} of the looped-check table not found (needs triage)')
             continue
-        ok = r['looped_call'] in looped_checks(f)
-        ck.record(f'{P}.D5b', f'{r["fn"]}|{short(r["looped_call"])}', ok, f'{short(r["looped_call"])} applied per element',
-                  f'{r["fn"]} no longer applies {r["looped_call"]} inside its iteration: the per-element check was dropped or hoisted out of the loop', hirq.fn_loc(f))
+        eval_looped_row(ck, f'{P}.D5b', f, r)
     ck.count(f'{P}.D5b pairs', len(rowsl))
     # ------------------------------------------------------------------ D7
     ck.rule(f'{P}.D7', 'declared bounds reach their checks by VALUE: for each (function, integer parameter, constraint-emitting callee) of rules/boundflow.json the '
@@ -323,3 +404,24 @@ def run_d(ck, w, prop, floors):
                       f'{fx}: the declared bound `{r["param"]}` no longer reaches {r["reaches"]} by value (it may still decide how many checks run, but not '
                       f'their limits): the limit that call enforces is now independent of the declared bound', hirq.fn_loc(f))
     ck.count(f'{P}.D7 triples', len(rows7))
+    # ------------------------------------------------------------------ D8
+    ck.rule(f'{P}.D8', 'input-use preservation: for each (function, assigned-cell parameter, constraint-emitting callee) of rules/argflow.json, at least as many '
+                       'call sites of the callee as on the reference tree still receive a value derived from that parameter.  Re-routing a check to another '
+                       'input (a length, a flag, a sibling operand of the same type) type-checks and keeps every call in place, but the check then constrains '
+                       'the wrong value.  Additional uses never fire.')
+    rows8 = [r for r in load_rules('argflow.json') if r['property'] == prop]
+    byfn = {}
+    for r in rows8:
+        byfn.setdefault(r['fn'], []).append(r)
+    for fx, rs in sorted(byfn.items()):
+        f = w.fn_x(fx, required=False)
+        if f is None:
+            ck.bad(f'{P}.D8', f'{fx}:anchor', f'function {fx} of the input-use table not found (needs triage)')
+            continue
+        cur = arg_flows(f)
+        for r in rs:
+            have = cur.get((r['param'], r['reaches']), 0)
+            ck.record(f'{P}.D8', f'{fx}|{r["param"]}|{short(r["reaches"])}', have >= r['sites'], f'`{r["param"]}` reaches {short(r["reaches"])} at {have} site(s)',
+                      f'{fx}: input `{r["param"]}` reached {r["sites"]} call site(s) of {r["reaches"]} on the reference tree and reaches {have} now: a '
+                      f'constraint that consumed this input was dropped or re-routed to another value', hirq.fn_loc(f))
+    ck.count(f'{P}.D8 triples', len(rows8))
